@@ -174,14 +174,18 @@ def run_case(scn, drv):
                 viol('with unchanged prices the optimal value changed from %.8g to %.8g' % (v0, res3.value), what='value_changed')
     except Exception as e:
         viol('set-up with fix_time_window and old prices raised %s' % type(e).__name__, what='raises', err=impl.err_class(e))
-    # (4) split set-up with a window (date) inside the first interval: the same dictionary goes to every interval; only the
-    #     steps up to the date are pinned, in every other interval everything stays free
-    if fx['mode'] == 'date' and tg.T >= 4:
+    # (4) split set-up with a window (date or index mask over the whole horizon, reaching into any interval): exactly the
+    #     variables with a step in the window are pinned to the previous (split) solution, everything else stays free
+    if tg.T >= 4 and (fx['mode'] == 'date' or len(scn['assets']) % 2 == 0):
         try:
-            interval = pf.split_interval(scn, tg, parts=2)
-            k_int = max(1, tg.T // 2)
-            j = min(fx['k'], k_int - 1)
-            d2 = tg.timepoints[j].to_pydatetime()
+            interval = pf.split_interval(scn, tg, parts=2 if len(op_fix.c) % 2 else 3)
+            if fx['mode'] == 'date':
+                j = min(fx['k'], tg.T - 1)
+                d2 = tg.timepoints[j].to_pydatetime()
+                wsteps = set(int(t) for t in tg.I[:j + 1])
+            else:
+                d2 = mask.copy()
+                wsteps = set(steps)
             rs0 = pf.setup_split(scn, interval)
             pf.solve_rec(rs0)
             if not isinstance(rs0['res'], str) and len(getattr(rs0['op'], 'ops', [])) >= 2:
@@ -195,17 +199,17 @@ def run_case(scn, drv):
                 if len(op_sf.c) != len(op_s0.c):
                     viol('split set-up with a fixed window has %d variables, without %d' % (len(op_sf.c), len(op_s0.c)), what='split_fix_sizes')
                 else:
-                    pinned = set(int(i) for i in ms.index[ms['time_step'] <= int(tg.I[j])])
+                    pinned = set(int(i) for i in ms.index[ms['time_step'].isin(list(wsteps))])
                     lf, uf = np.concatenate([o.l for o in op_sf.ops]), np.concatenate([o.u for o in op_sf.ops])
                     l0, u0 = np.concatenate([o.l for o in op_s0.ops]), np.concatenate([o.u for o in op_s0.ops])
                     for v in range(len(op_sf.c)):
                         if v in pinned:
                             if not (lf[v] == xs[v] and uf[v] == xs[v]):
-                                viol('split set-up: variable %d belongs to a step in the fixed window (up to step %d) but has bounds [%s, %s], previous value %s' % (v, j, lf[v], uf[v], xs[v]), what='split_not_pinned')
+                                viol('split set-up: variable %d belongs to a step in the fixed window but has bounds [%s, %s], previous value %s' % (v, lf[v], uf[v], xs[v]), what='split_not_pinned')
                                 break
                         elif not (lf[v] == l0[v] and uf[v] == u0[v]):
-                            viol('split set-up: variable %d has no step in the fixed window (up to step %d) but its bounds changed from [%s, %s] to [%s, %s]' % (
-                                v, j, l0[v], u0[v], lf[v], uf[v]), what='split_free_changed')
+                            viol('split set-up: variable %d has no step in the fixed window but its bounds changed from [%s, %s] to [%s, %s]' % (
+                                v, l0[v], u0[v], lf[v], uf[v]), what='split_free_changed')
                             break
         except Exception as e:
             feats.append('split-fix-error:' + impl.err_class(e))
